@@ -264,3 +264,59 @@ func TestPinnedStaleNewLink(t *testing.T) {
 		}
 	}
 }
+
+// genFaultHistory: a history for the error-return runs. Recov is what the same Dir (last set) and
+// the fresh Dir write after the fault was removed.
+func genFaultHistory(rt *rapid.T) (history, faultVariant) {
+	h := history{Crash2: -1}
+	h.Nested = rapid.Bool().Draw(rt, "nested")
+	h.Disk = rapid.IntRange(0, 3).Draw(rt, "disk") == 0
+	nw := rapid.IntRange(1, 4).Draw(rt, "writes")
+	for i := 0; i < nw; i++ {
+		h.Writes = append(h.Writes, genSet(rt, fmt.Sprintf("h%d", i)))
+	}
+	nr := rapid.IntRange(1, 2).Draw(rt, "after")
+	for i := 0; i < nr; i++ {
+		h.Recov = append(h.Recov, genSet(rt, fmt.Sprintf("r%d", i)))
+	}
+	va := faultVariant{Repeat: rapid.Bool().Draw(rt, "faultKeptForNextWrite"), SameFirst: rapid.Bool().Draw(rt, "sameDirFirst")}
+	return h, va
+}
+
+// TestFaultHistories: rapid draws the history and how the run goes on after the fault; every
+// (write x hook point x applicable fault kind) of it is enumerated, each making a filesystem step
+// of Write return an error.
+func TestFaultHistories(t *testing.T) {
+	sec := vk.Sec("FaultHistories")
+	vk.Check(t, 120, 8000, func(rt *rapid.T) {
+		h, va := genFaultHistory(rt)
+		if f := checkFaults(h, []faultVariant{va}, sec); f != nil {
+			rt.Logf("%s", f.full)
+			rt.Fatalf("%s", f.stable)
+		}
+	})
+}
+
+// TestFaultSweep enumerates a small finite space completely: every history of 1..2 (thorough 1..3)
+// Writes over subsets of {a,b}, on an existing and on a missing base directory, x every hook point
+// x every applicable fault kind x fault removed at once / kept during the next Write x the same Dir
+// or a fresh Dir writing first afterwards; the Writes after the fault: {a,b}, or {} then {b}.
+func TestFaultSweep(t *testing.T) {
+	sec := vk.Sec("FaultSweep")
+	idx := 0
+	for _, nested := range []bool{false, true} {
+		for _, ws := range seqs(vk.Pick(2, 3)) {
+			for _, rv := range [][]wset{{smallSets[3]}, {smallSets[0], smallSets[2]}} {
+				idx++
+				if !vk.Mine(idx) {
+					continue
+				}
+				h := history{Nested: nested, Writes: ws, Recov: rv, Crash2: -1, Disk: nested}
+				if f := checkFaults(h, allVariants, sec); f != nil {
+					t.Fatalf("%s", f.full)
+				}
+			}
+		}
+	}
+	sec.SetExhaustive()
+}
